@@ -112,7 +112,7 @@ def holdsRoute (R : Route) (ths : List ThObs) (trace : List Ev) : Bool :=
     | none => false
     | some t =>
       match t.op with
-      | .incr | .exp _ => e.tier == R.ck
+      | .incr | .exp _ | .setnx _ _ | .hset _ | .hget | .hdel => e.tier == R.ck
       | _ => e.tier == R.ck || (R.pe && e.tier == .persistent))
 
 /-- The initial content as the facade shows it. -/
@@ -126,10 +126,44 @@ def coherent (R : Route) (c s p : Option Val) : Bool :=
   !R.pe || (({ c := ⟨c, 0, 0⟩, s := ⟨s, 0, 0⟩, p := ⟨p, 0, 0⟩ } : St).cell R.ck).val.isNone
         || (({ c := ⟨c, 0, 0⟩, s := ⟨s, 0, 0⟩, p := ⟨p, 0, 0⟩ } : St).cell R.ck).val == p
 
-/-- The whole property on one observation. -/
-def holds (R : Route) (c s p : Option Val) (o : Obs) : Bool :=
-  holdsRoute R o.ths o.trace &&
-  (!coherent R c s p ||
-    (holdsFresh (initVal R c s p) o.ths o.fget && holdsList (initVal R c s p) o.ths o.fget))
+/-- Key families the code base uses for data that other nodes must see (config.go comments, the key
+constants of `internal/constants` and `internal/cloud/repos`, the `lock:` keys of
+`distributed.StorageBasedLock`).  Independent of the prefix tables: it states the intent the tables must meet. -/
+def declaredCrossNode : List String :=
+  ["tunnox:conn_state:", "tunnox:client_conn:", "tunnox:tunnel_waiting:", "tunnox:node:",
+   "tunnox:runtime:conncode:", "tunnox:index:conncode:target:", "tunnox:id:", "tunnox:runtime:client:state:",
+   "tunnox:http_domain:index:", "tunnox:http_domain:next_id", "tunnox:http_domain:deleting:",
+   "tunnox:http_domain:mapping:", "tunnox:http_domain:mappings:list", "tunnox:http_domain:client:",
+   "tunnox:client_mappings:", "tunnox:user_mappings:", "tunnox:port_mapping:", "tunnox:mappings:list",
+   "webhook:", "webhooks:", "webhook_log:", "webhook_logs:", "lock:"]
+
+def isDeclaredCrossNode (key : String) : Bool :=
+  declaredCrossNode.any (fun p => Tunnox.PredPrelude.hasPrefix key p)
+
+/-- With a shared cache configured, no call on a cross-node key touches a node-local cache
+("shared cross-node keys are visible to every node"). -/
+def holdsDeclared (key : String) (sh : Bool) (trace : List Ev) : Bool :=
+  !(isDeclaredCrossNode key && sh) || trace.all (fun e => e.tier != .cache)
+
+/-- What `holds` needs to know about the case besides the route. -/
+structure CaseInfo where
+  key : String
+  sh : Bool                -- a shared cache is configured
+  twoNode : Bool := false  -- calls are issued on two facade instances
+  evicts : Bool := false   -- the schedule contains cache evictions
+  deriving Repr
+
+/-- The data of the key is shared between nodes: through the shared cache or the persistent tier. -/
+def Route.crossNode (R : Route) : Bool := R.ck == .shared || R.pe
+
+/-- The whole property on one observation.  Freshness and list atomicity are judged
+* for one node always (an eviction must not lose data: judged only when a persistent tier backs the cache),
+* across two nodes when the data of the key is shared between nodes (node-local runtime data is not). -/
+def holds (R : Route) (K : CaseInfo) (c s p : Option Val) (o : Obs) : Bool :=
+  holdsRoute R o.ths o.trace && holdsDeclared K.key K.sh o.trace &&
+  (!coherent R c s p || (K.evicts && !R.pe) || (K.twoNode && !R.crossNode) ||
+    (holdsFresh (initVal R c s p) o.ths o.fget && holdsList (initVal R c s p) o.ths o.fget &&
+     (!K.twoNode ||
+       (holdsFresh (initVal R c s p) o.ths o.fget1 && holdsList (initVal R c s p) o.ths o.fget1))))
 
 end Tunnox.C14
